@@ -20,6 +20,8 @@ Clauses (Fail.clause):
 
 from __future__ import annotations
 
+import time
+
 from vp.common.harness import Fail
 from vp.gen import c16_ops, c16_world
 from vp.gen.c16_world import K_CLOBBER, K_STALE, K_TOPLEVEL, run_history
@@ -124,16 +126,12 @@ def _is_toplevel_parent(case, fail: Fail) -> bool:
 
 
 def _is_clobbered(case, fail: Fail) -> bool:
-    """alias-registered fails right after set_member replaced an object: the alias is not registered under any key
-    and the entry under its path is a *detached* alias (a stale back-reference of the replaced object that
-    set_member re-targeted and re-registered under its old path)."""
+    """alias-registered fails: the alias is not registered under any key and the entry under its path is a *detached*
+    alias (one that was deleted or replaced out of the tree).  Detached aliases keep registering themselves under
+    their old path: when set_member re-targets the stale back-references of a replaced object, or when they are
+    resolved lazily through an alias that still points at them."""
     d = fail.detail or {}
-    return bool(
-        fail.clause == "alias-registered"
-        and fail.kind.startswith("set_member:")
-        and d.get("keys") == []
-        and d.get("occupant_detached")
-    )
+    return bool(fail.clause == "alias-registered" and d.get("keys") == [] and d.get("occupant_detached"))
 
 
 KNOWN = {K_STALE: _is_stale_key, K_TOPLEVEL: _is_toplevel_parent, K_CLOBBER: _is_clobbered}
@@ -164,7 +162,8 @@ def _run_exhaustive(ctx) -> None:
             n += 1
             if n % ctx.nshards != ctx.shard:
                 continue
-            if n % 4096 == ctx.shard and ctx.out_of_budget():
+            if n % 4096 == ctx.shard and time.monotonic() - ctx.t0 > 0.5 * ctx.budget_s:
+                ctx.res.budget_exhausted = True  # the enumeration gets at most half of the budget
                 return
             world = c16_world.World(known, ctx.excluded)
             ok = not any(world.step(op, check=False) for op in prelude)
